@@ -134,6 +134,11 @@ def run(ctx):
             shapes.append([[rng.randint(-lim, lim) for _ in range(rng.randint(0 if j else 1, 8))]
                            for j in range(rng.randint(1, 4))])
     shapes += [[[50, -75], [], [24]], [[0]], [25], [[25]], [[-25, 26], [49, -49]]]
+    # input that is already on the 50 us grid (captures of an MCE receiver, the output of an earlier conversion)
+    shapes += [[9000, -4500, 550, -550, 550, -1700, 550, -40000], [[9000, -4500, 550, -39950], [9000, -2250, 550, -96200]],
+               [[50], [-100, 150]], [0, 50, -50], [[100, -100], [101, -99]]]
+    for _ in range(6):
+        shapes.append([50 * rng.randint(-400, 400) for _ in range(rng.randint(1, 10))])
 
     def enc_shape(s):
         if isinstance(s[0], list):
@@ -209,6 +214,15 @@ Definition runm (a : shape) : list Z := let '(r, a') := rlc_to_mce build_mce_rlc
                 or pyir.rlc_to_mce(copy.deepcopy(r)) != r):
             ctx.report('rlc_to_mce', 'result-wrong', dict(nested=nested),
                        dict(call='pyIRDecoder.rlc_to_mce', arg=s, result=r))
+    for s in shapes:
+        for fl in (s if isinstance(s[0], list) else [s]):
+            arg = list(fl)
+            r = utils.build_mce_rlc(arg)
+            ctx.count_eval(key=('new list', json.dumps(fl)))
+            if (r is arg and arg) or arg != fl:
+                ctx.report('build_mce_rlc', 'argument-returned' if arg == fl else 'argument-modified', dict(n=len(fl)),
+                           dict(call='utils.build_mce_rlc', arg=fl, note='the conversion must return a new list'))
+                break
     ctx.extra['search'] = dict(exhaustive_domain='[-200000, 200000]', shapes=len(shapes))
     ctx.cov['rule'] = ('search: every integer of [-200000,200000] through utils.build_mce_rlc (each distinct) '
                        '+ random flat/nested shapes through rlc_to_mce; distinct = distinct inputs')
